@@ -201,6 +201,96 @@ theorem range_split (a b : List Char) (h : a ≠ []) (hd : '.' ∉ a) :
     simp only [parseRange, List.cons_append, List.isEmpty_cons, Bool.false_eq_true, if_false, hf]
     simp
 
+/-- `findDotDot` returns the position of the **first** `..` -/
+theorem findDotDot_some : ∀ (s : List Char) (i k : Nat), findDotDot s i = some k →
+    ∃ j, k = i + j ∧ s[j]? = some '.' ∧ s[j + 1]? = some '.' ∧
+      ∀ m, m < j → ¬ (s[m]? = some '.' ∧ s[m + 1]? = some '.')
+  | [], _, _, h => by simp [findDotDot] at h
+  | [_], _, _, h => by simp [findDotDot] at h
+  | a :: b :: rest, i, k, h => by
+    simp only [findDotDot] at h
+    by_cases hab : (a = '.' && b = '.') = true
+    · simp only [hab, if_true, Option.some.injEq] at h
+      simp only [Bool.and_eq_true, decide_eq_true_eq] at hab
+      exact ⟨0, by omega, by simp [hab.1], by simp [hab.2], by intro m hm; omega⟩
+    · simp only [hab, Bool.false_eq_true, if_false] at h
+      obtain ⟨j, hk, h1, h2, h3⟩ := findDotDot_some (b :: rest) (i + 1) k h
+      refine ⟨j + 1, by omega, by simpa using h1, by simpa using h2, ?_⟩
+      intro m hm
+      cases m with
+      | zero =>
+        simp only [List.getElem?_cons_zero, Option.some.injEq, Nat.zero_add, List.getElem?_cons_succ]
+        intro hc
+        apply hab
+        simp [hc.1, hc.2]
+      | succ m' =>
+        have := h3 m' (by omega)
+        simpa using this
+
+theorem findDotDot_none_iff : ∀ (s : List Char) (i : Nat), findDotDot s i = none ↔
+    ∀ m, ¬ (s[m]? = some '.' ∧ s[m + 1]? = some '.')
+  | [], _ => by simp [findDotDot]
+  | [a], _ => by
+    simp only [findDotDot, true_iff]
+    intro m
+    cases m <;> simp
+  | a :: b :: rest, i => by
+    simp only [findDotDot]
+    by_cases hab : (a = '.' && b = '.') = true
+    · simp only [hab, if_true, reduceCtorEq, false_iff]
+      simp only [Bool.and_eq_true, decide_eq_true_eq] at hab
+      intro hall
+      exact hall 0 ⟨by simp [hab.1], by simp [hab.2]⟩
+    · simp only [hab, Bool.false_eq_true, if_false]
+      rw [findDotDot_none_iff (b :: rest) (i + 1)]
+      constructor
+      · intro h m
+        cases m with
+        | zero =>
+          simp only [List.getElem?_cons_zero, Option.some.injEq, Nat.zero_add, List.getElem?_cons_succ]
+          intro hc; apply hab; simp [hc.1, hc.2]
+        | succ m' => simpa using h m'
+      · intro h m
+        simpa using h (m + 1)
+
+/-- **every spelling**: the range is split at the first `..`; what precedes it is the base
+    (empty: an error), what follows the target (empty: `HEAD`); without `..` the whole text is
+    the base and the target is `HEAD` -/
+theorem range_general (s : List Char) (hs : s ≠ []) :
+    (∀ j, s[j]? = some '.' → s[j + 1]? = some '.' →
+        (∀ m, m < j → ¬ (s[m]? = some '.' ∧ s[m + 1]? = some '.')) →
+        parseRange s = (if j = 0 then .error
+          else .ok (s.take j) (if (s.drop (j + 2)).isEmpty then "HEAD".toList else s.drop (j + 2)))) ∧
+    ((∀ m, ¬ (s[m]? = some '.' ∧ s[m + 1]? = some '.')) → parseRange s = .ok s "HEAD".toList) := by
+  have hne : s.isEmpty = false := by cases s <;> simp_all
+  constructor
+  · intro j h1 h2 h3
+    cases hf : findDotDot s 0 with
+    | none =>
+      exact absurd ⟨h1, h2⟩ ((findDotDot_none_iff s 0).1 hf j)
+    | some k =>
+      obtain ⟨j', hk, g1, g2, g3⟩ := findDotDot_some s 0 k hf
+      have hjj : j' = j := by
+        rcases Nat.lt_trichotomy j' j with hlt | heq | hgt
+        · exact absurd ⟨g1, g2⟩ (h3 j' hlt)
+        · exact heq
+        · exact absurd ⟨h1, h2⟩ (g3 j hgt)
+      have hkj : k = j := by omega
+      subst hkj
+      simp only [parseRange, hne, Bool.false_eq_true, if_false, hf]
+      by_cases hj0 : k = 0
+      · subst hj0; simp
+      · have : (s.take k).isEmpty = false := by
+          cases s with
+          | nil => simp at hs
+          | cons c cs => cases k with
+            | zero => exact absurd rfl hj0
+            | succ k' => simp
+        simp [this, hj0]
+  · intro h
+    have hf := (findDotDot_none_iff s 0).2 h
+    simp [parseRange, hne, hf]
+
 example : parseRange "main..feature".toList = .ok "main".toList "feature".toList := by decide
 example : parseRange "v1.0..".toList = .ok "v1.0".toList "HEAD".toList := by decide
 example : parseRange "..feature".toList = .error := by decide
